@@ -809,6 +809,14 @@ def r01_12(ctx):
         raise AnalysisError(f"only {n} first-match loops found in the evaluators")
 
 
+def r01_13(ctx):
+    """R01.13 the precedence ladder is re-run from the top on every evaluation: the flag that records an active `set` is assigned on
+    every path of the typed branches (C03 R03.7) - a flag left over from an earlier evaluation skips user value and defaults."""
+    from . import c03
+    from .common import delegate
+    delegate(ctx, c03.r03_7, lambda c: "_has_active_indirect_set assigned on every path" in c)
+
+
 def rules():
-    return [("R01.12", r01_12, 8), ("R01.11", r01_11, 1), ("R01.10", r01_10, 2), ("R01.9", r01_9, 10), ("R01.1", r01_1, 9), ("R01.2", r01_2, 5), ("R01.3", r01_3, 5), ("R01.4", r01_4, 12), ("R01.5", r01_5, 7),
+    return [("R01.13", r01_13, 3), ("R01.12", r01_12, 8), ("R01.11", r01_11, 1), ("R01.10", r01_10, 2), ("R01.9", r01_9, 10), ("R01.1", r01_1, 9), ("R01.2", r01_2, 5), ("R01.3", r01_3, 5), ("R01.4", r01_4, 12), ("R01.5", r01_5, 7),
             ("R01.6", r01_6, 5), ("R01.7", r01_7, 4), ("R01.8", r01_8, 14)]
